@@ -6,7 +6,9 @@ import Cvise.Gen.Const
 
 `SafeDisk W orig d`: the directory state `d` is the original input, or there is an invocation `(round, order)` of the
 interestingness test on exactly `d` that exited 0 (`invExit`: a scripted per-invocation fault if there is one, else the
-deterministic test).  The theorems hold for every number of files, every pass interface (arbitrary functions), every
+deterministic test), or a sanity check (the test run directly on a copy of all test cases) on exactly `d` exited 0 — the
+last case is how a pass whose `new` rewrites the file in place (`LinesPass.__format`, modelled by `PassI.fmt` /
+`D.fmtStep`) keeps its rewriting.  The theorems hold for every number of files, every pass interface (arbitrary functions), every
 test, every fault assignment, every schedule oracle, every limit setting, every fuel — and for error outcomes, whose
 state is carried in the result.  Hypothesis `KeyOK`: the replay table is off or keyed on the joint contents; without
 it the statement is false (`cache_single_key_unsafe`, finding F1).
